@@ -48,12 +48,18 @@ pub enum Q {
     RFits(RecSpec, String),
     Rel(RecSpec, String, Option<String>),
     Tags(String),
+    /// `fits_marker` / `fits_val` / `fits_choice` / `fits_entity` (0..3)
+    FitsRoot(u8, String),
+    /// `implementation`
+    Impl(String),
+    /// `choices_for`
+    Choices(String),
 }
 
 impl Q {
     /// known to the Lean model
     fn modelled(&self) -> bool {
-        !matches!(self, Q::Rel(..) | Q::Tags(..))
+        !matches!(self, Q::Rel(..) | Q::Tags(..) | Q::FitsRoot(..) | Q::Impl(_) | Q::Choices(_))
     }
     /// the set of cached keys after the query does not depend on hash-set iteration order
     fn deterministic_footprint(&self) -> bool {
@@ -92,6 +98,9 @@ impl Q {
                 out.push(vx::ho(t));
             }
             Q::Tags(p) => out.extend(["tags".into(), vx::h(p)]),
+            Q::FitsRoot(w, k) => out.extend(["froot".into(), w.to_string(), vx::h(k)]),
+            Q::Impl(k) => out.extend(["impl".into(), vx::h(k)]),
+            Q::Choices(k) => out.extend(["choices".into(), vx::h(k)]),
         }
     }
     fn read(rd: &mut vx::Rd) -> Option<Q> {
@@ -121,6 +130,12 @@ impl Q {
                 Q::Rel(r, n, rd.hos()?)
             }
             "tags" => Q::Tags(rd.hs()?),
+            "froot" => {
+                let w: u8 = rd.num()?;
+                Q::FitsRoot(w, rd.hs()?)
+            }
+            "impl" => Q::Impl(rd.hs()?),
+            "choices" => Q::Choices(rd.hs()?),
             _ => return None,
         })
     }
@@ -187,6 +202,18 @@ fn ask(ns: Ns, q: &Q) -> (String, String) {
             (b(ns.has_relationship(&d, &Symbol::from(name.as_str()), &t, &None, &resolve)), String::new())
         }
         Q::Tags(p) => (n(c13::names(ns.tags(&Symbol::from(p.as_str())))), String::new()),
+        Q::FitsRoot(w, k) => {
+            let sym = Symbol::from(k.as_str());
+            let r = match w {
+                0 => ns.fits_marker(&sym),
+                1 => ns.fits_val(&sym),
+                2 => ns.fits_choice(&sym),
+                _ => ns.fits_entity(&sym),
+            };
+            (b(r), String::new())
+        }
+        Q::Impl(k) => (n(c13::names(ns.implementation(&Symbol::from(k.as_str())))), String::new()),
+        Q::Choices(k) => (n(c13::names(ns.choices_for(&Symbol::from(k.as_str())).iter())), String::new()),
     }
 }
 
@@ -789,7 +816,15 @@ fn gen_queries(rng: &mut Rng, o: &Oracle, universe: &[String], n: u64, kinds: &[
                 let rel = rng.pick(&["inputs", "outputs", "containedBy", "relationship"]).to_string();
                 Q::Rel(r, rel, if rng.chance(2, 3) { Some(name(rng)) } else { None })
             }
-            _ => Q::Tags(name(rng)),
+            7 => Q::Tags(name(rng)),
+            8 => {
+                let w = rng.below(4) as u8;
+                // the roots themselves are the interesting arguments
+                let k = if rng.chance(1, 2) { ["marker", "val", "choice", "entity"][w as usize].to_string() } else { name(rng) };
+                Q::FitsRoot(w, k)
+            }
+            9 => Q::Impl(name(rng)),
+            _ => Q::Choices(name(rng)),
         };
         qs.push(q);
     }
@@ -798,7 +833,7 @@ fn gen_queries(rng: &mut Rng, o: &Oracle, universe: &[String], n: u64, kinds: &[
 
 const MODELLED_DET: &[u64] = &[0, 1, 1, 2, 2, 2, 3, 3, 4];
 const MODELLED: &[u64] = &[0, 1, 2, 2, 3, 3, 4, 5, 5];
-const ALL_KINDS: &[u64] = &[0, 1, 2, 2, 3, 3, 4, 5, 6, 6, 7];
+const ALL_KINDS: &[u64] = &[0, 1, 2, 2, 3, 3, 4, 5, 6, 6, 7, 8, 8, 9, 10];
 const ORDERED: &[u64] = &[0, 1, 2, 2, 3];
 
 fn universe_of(o: &Oracle) -> Vec<String> {
@@ -905,6 +940,46 @@ pub fn generate(ctx: &mut Ctx) {
             q.write(&mut t);
         }
         emit(ctx, &format!("seq:zinc{i}"), "seq", &GraphSrc::Zinc, t);
+    }
+    // every root helper first on a cold namespace and again after its inheritance was cached
+    for (w, root) in ["marker", "val", "choice", "entity"].iter().enumerate() {
+        for arg in [root.to_string(), "site".to_string(), "ahu".to_string(), "hot-water".to_string(), "neverMentioned".to_string()] {
+            let qs = vec![
+                Q::FitsRoot(w as u8, arg.clone()),
+                Q::Inh(arg.clone()),
+                Q::FitsRoot(w as u8, arg.clone()),
+                Q::Refl(vec![(arg.clone(), true)]),
+                Q::FitsRoot(w as u8, arg.clone()),
+                Q::Impl(arg.clone()),
+                Q::Choices(arg.clone()),
+            ];
+            let mut t = vec![qs.len().to_string()];
+            for q in &qs {
+                q.write(&mut t);
+            }
+            emit(ctx, &format!("seq:root_{root}"), "seq", &GraphSrc::Zinc, t);
+        }
+    }
+    // many distinct symbols that are no defs: the caches grow far beyond the number of defs while
+    // several threads miss at the same time
+    for i in 0..ctx.n(2, 12) {
+        let nthreads = 8;
+        let qss: Vec<Vec<Q>> = (0..nthreads)
+            .map(|t| {
+                (0..220)
+                    .map(|k| {
+                        if k % 5 == 4 {
+                            Q::Inh(rng.pick(&uni).clone())
+                        } else if k % 2 == 0 {
+                            Q::Inh(format!("zz{i}x{t}x{k}"))
+                        } else {
+                            Q::Sup(format!("zz{i}x{t}x{k}"))
+                        }
+                    })
+                    .collect()
+            })
+            .collect();
+        emit_conc(ctx, &mut rng, &format!("conc:flood{i}"), &GraphSrc::Zinc, &qss);
     }
     for i in 0..ctx.n(8, 300) {
         let nthreads = if i % 2 == 0 { 16 } else { 2 + rng.below(15) as usize };
